@@ -51,6 +51,7 @@ inline void rmrf(const std::string& p) {
 inline std::string freshDir(const std::string& tag) {
   static int n = 0;
   std::string d = scratchRoot() + "/" + tag + "-" + std::to_string(getpid()) + "-" + std::to_string(n++);
+  rmrf(d);  // a sanitizer-aborted process with a recycled pid may have left one behind
   mkdirs(d);
   return d;
 }
